@@ -159,6 +159,7 @@ def collect(prop, tier, fnd, cov, ck):
         if prop == "C12":
             rep = ck.stage_replay(tier, dump=dump, name="replay-iter", universe="4")
             replay_into(prop, rep, fnd, cov, ck, universe=4)
+            ck.shapes_into(prop, tier, fnd, cov)
             drv = ck.stage_drive(tier)
             ck.collect_drive(prop, drv, fnd, cov)
             cov["distinct_nontrivial"] = nt["counts"].get("C12", 0)
